@@ -17,11 +17,10 @@ What is mirrored, function by function:
                                regex engine's backtracking order).
 * `LASSection`              → `Cur.sect`, `finaliseSect` (rules of the 'V' section, duplicate section types).
 * `LASSectionArray`         → `ArrSt`, `arrAddLine` (unwrapped, and the `_unwrap_buffer` automaton), `finaliseArr`
-                               (column count, `float()` or null = -999.25, duplicate X values).
+                               (column count, `float()` or the null value taken from `~W NULL`, duplicate X values).
 * `LASRead._process_file`   → `topLevel`, `step`, `finish`, `parse`.
 
-Not modelled (the model answers `Err.unsupported`): curves `DATE .D` / `TIME .HHMMSS` (strptime); curve lists with a
-numeric mnemonic equal to another column's index (`identClash`, the result depends on uninitialised memory).
+Not modelled (the model answers `Err.unsupported`): curves `DATE .D` / `TIME .HHMMSS` (strptime).
 Equality of floats (duplicate X, `VERS in (1.2, 2.0)`) is decided on the exact decimals, not on the rounded doubles.
 -/
 namespace TD.C09
@@ -251,11 +250,12 @@ structure Section where
 /-- a cell of the frame array after `_convert_value` -/
 inductive Cell where
   | num (m : Int) (e : Int)
-  | null                           -- the reader's null, -999.25
+  | null                           -- the array section's null value (`ArrayData.null`)
   deriving DecidableEq, Repr, Inhabited
 
 structure ArrayData where
   names : List (Value × Value)     -- (ident, units) of each channel, in curve order
+  null : Int × Int                 -- the null value of the array section (exact decimal)
   frames : List (List Cell)        -- one row per frame
   deriving DecidableEq, Repr, Inhabited
 
@@ -317,6 +317,7 @@ def truthy : Value → Bool
 
 structure ArrSt where
   wrap : Bool
+  null : Int × Int               -- `self._null`
   names : List (Value × Value)
   members : List (List Str)      -- reversed
   buf : List Str                 -- `_unwrap_buffer`, in order
@@ -363,15 +364,21 @@ def isDateTime (n : Value × Value) : Bool :=
   (n.1 == .text "DATE".toList && n.2 == .text "D".toList) ||
   (n.1 == .text "TIME".toList && n.2 == .text "HHMMSS".toList)
 
-/-- `self.frame_array[channel_index]` in `finalise`: `FrameArray.__getitem__` first looks the INTEGER index up as a
-channel ident, so a curve whose mnemonic was typed to a number equal to another column's index receives that column's
-values and the column itself stays uninitialised memory (`np.empty`).  The outcome is not a function of the text; the
-model answers `unsupported` for such curve lists (recorded as finding F-C09-3). -/
-def identClash (names : List (Value × Value)) : Bool :=
-  (names.zipIdx).any (fun p =>
-    match asNum p.1.1 with
-    | some x => (List.range names.length).any (fun j => j != p.2 && numEq x ((j : Int), 0))
-    | none => false)
+/-- `LASBase.null_value` (`self['W']['NULL'].valu`, -999.25 on KeyError) followed by the guard of
+`_process_section_a`: only an int or a float (not a bool, not text) is passed to the array section. -/
+def defaultNull : Int × Int := (-99925, -2)
+
+def nullOf (st : St) : Int × Int :=
+  match st.sections.reverse.find? (fun s => s.typ == 'W') with
+  | none => defaultNull
+  | some w =>
+    match w.members.find? (fun m => memberMnem m == some (.text "NULL".toList)) with
+    | some (.line l) =>
+      match l.valu with
+      | .int i => (i, 0)
+      | .float m e => (m, e)
+      | _ => defaultNull
+    | _ => defaultNull
 
 /-- `_process_file` body for one (stripped) line examined at top level -/
 def topLevel (st : St) (s : Str) : Except Err St :=
@@ -386,8 +393,7 @@ def topLevel (st : St) (s : Str) : Except Err St :=
       let names := curveNames c
       if hasDupKey (names.map (·.1)) then .error .dupChannel
       else if names.any isDateTime then .error .unsupported
-      else if identClash names then .error .unsupported
-      else .ok { st with cur := .arr ⟨match st.wrapV with | some v => truthy v | none => false, names, [], []⟩ }
+      else .ok { st with cur := .arr ⟨match st.wrapV with | some v => truthy v | none => false, nullOf st, names, [], []⟩ }
   | some t =>
     if st.sections.isEmpty then .error .nonVersionFirst
     else .ok { st with cur := .sect t (isDataLetter t) [] }
@@ -419,7 +425,9 @@ def arrAddLine (a : ArrSt) (line : Str) : Except Err ArrSt :=
   else if a.wrap then
     if a.buf.isEmpty then
       match values with
-      | [v] => .ok { a with buf := [v] }
+      | [v] =>
+        if a.names.length = 1 then .ok { a with members := [v] :: a.members }   -- only the index curve: flushed at once
+        else .ok { a with buf := [v] }
       | _ => .error .wrapIndex
     else
       let buf := a.buf ++ values
@@ -434,9 +442,9 @@ def convertValue (tok : Str) : Cell :=
   | some (m, e) => .num m e
   | none => .null
 
-def cellKey : Cell → Int × Int
+def cellKey (null : Int × Int) : Cell → Int × Int
   | .num m e => (m, e)
-  | .null => (-99925, -2)
+  | .null => null
 
 /-- `create_index`: a duplicate X axis value raises -/
 def hasDupX : List (Int × Int) → Bool
@@ -449,13 +457,13 @@ def finaliseArr (a : ArrSt) : Except Err ArrayData :=
   let pending : Bool := !a.buf.isEmpty && a.buf.length != a.names.length
   let members := (if !a.buf.isEmpty && a.buf.length = a.names.length then a.buf :: a.members else a.members).reverse
   if members.isEmpty then
-    (if pending then .error .bufferLen else .ok ⟨a.names, []⟩)
+    (if pending then .error .bufferLen else .ok ⟨a.names, a.null, []⟩)
   else if members.any (fun r => r.length != a.names.length) then .error .columns
   else
     let frames := members.map (fun r => r.map convertValue)
-    if !a.names.isEmpty && hasDupX (frames.map (fun r => cellKey (r.headD .null))) then .error .dupX
+    if !a.names.isEmpty && hasDupX (frames.map (fun r => cellKey a.null (r.headD .null))) then .error .dupX
     else if pending then .error .bufferLen
-    else .ok ⟨a.names, frames⟩
+    else .ok ⟨a.names, a.null, frames⟩
 
 /-- one line delivered by `generate_lines` -/
 def step (st : St) (line : Str) : Except Err St :=
